@@ -139,7 +139,8 @@ var (
 // Boundary is the multipart boundary of every generated multipart body.
 const Boundary = "XbOuNdArYx"
 
-var statusReason = map[int]string{200: "OK", 201: "Created", 204: "No Content", 301: "Moved Permanently", 302: "Found", 304: "Not Modified", 404: "Not Found"}
+var statusReason = map[int]string{200: "OK", 201: "Created", 204: "No Content", 301: "Moved Permanently", 302: "Found", 304: "Not Modified", 404: "Not Found",
+	300: "Multiple Choices", 303: "See Other", 307: "Temporary Redirect", 308: "Permanent Redirect"}
 
 // ---------------------------------------------------------------------------------------------------------
 // spaces
@@ -237,13 +238,20 @@ func HeaderSpace(tier string) []Spec {
 			}
 		}
 	}
-	for _, status := range []int{200, 201, 301, 302, 404, 204, 304} {
+	for _, status := range []int{200, 201, 301, 302, 404, 204, 304, 300, 303, 307, 308} {
 		for _, ver := range []string{"1.1", "1.0"} {
 			for ck := range ResCookieHeaders {
 				for x := range ExtraHeaders {
 					locs := []int{0}
 					if status == 301 || status == 302 {
 						locs = []int{0, 1}
+					}
+					if status == 300 || status == 303 || status == 307 || status == 308 {
+						// the remaining redirect statuses: with a Location header, plain header set only
+						if x != 0 {
+							continue
+						}
+						locs = []int{1}
 					}
 					for _, loc := range locs {
 						base := Spec{Space: "header", Kind: "response", Status: status, Version: ver, Enc: "none", CT: "text", Cookies: ck, Extra: x, Loc: loc}
@@ -608,7 +616,7 @@ func Build(s Spec) *Msg {
 			add("Set-Cookie", c)
 		}
 		m.Cookies = ResCookieTruth[s.Cookies]
-		if s.Status == 301 || s.Status == 302 {
+		if s.Status >= 300 && s.Status < 400 && s.Status != 304 {
 			m.Location = Locations[s.Loc]
 			add("Location", m.Location)
 		}
